@@ -55,6 +55,8 @@ def structures(tier):
     for q in (0, 1, 2, 3):
         sts.append({'kind': 'listing', 'q': q})
     sts.append({'kind': 'decode'})
+    sts.append({'kind': 'decode-sequence'})
+    sts.append({'kind': 'text-representatives'})
     return sts
 
 
@@ -80,7 +82,63 @@ def _chars(ctx, name, n, cls):
 
 
 def run(ctx, st):
-    return {'text': run_text, 'listing': run_listing, 'decode': run_decode}[st['kind']](ctx, st)
+    return {'text': run_text, 'listing': run_listing, 'decode': run_decode, 'decode-sequence': run_decode_sequence,
+            'text-representatives': run_representatives}[st['kind']](ctx, st)
+
+
+REPRESENTATIVES = [
+    ('0x40c0548\tBSC_stat64', {0x40c0548: 'BSC_stat64'}),
+    ('40c0548 BSC_stat64\n', {0x40c0548: 'BSC_stat64'}),
+    ('0X40C0548  BSC_stat64   trailing words here\r\n25010014\tPERF_THD_CSwitch\n', {0x40c0548: 'BSC_stat64', 0x25010014: 'PERF_THD_CSwitch'}),
+    ('0x1 A\n0x1 B\n1 C\n', {1: 'C'}),
+    ('ABCDEF12 x\nabcdef12 y\n0xAbCdEf12 z #comment\n', {0xabcdef12: 'z'}),
+    ('0x7\tseven\t\t#Params: a b\n0x8 eight', {7: 'seven', 8: 'eight'}),
+    ('', {}),
+]
+
+
+def run_representatives(ctx, st):
+    """concrete texts through the untouched function: the forms the symbolic structures quantify over, so that an
+    implementation the proxies cannot carry (e.g. one built on regular expressions) is still exercised"""
+    import pykdebugparser.trace_codes as tc
+    for i, (text, want) in enumerate(REPRESENTATIVES):
+        try:
+            got = tc.from_trace_codes_text(text)
+        except Exception as e:      # noqa
+            ctx.check('C19/text/representative-%d' % i, False, '%r raised %s: %s' % (text, type(e).__name__, e))
+            continue
+        ctx.check('C19/text/representative-%d' % i, dict(got) == want, '%r -> %r, expected %r' % (text, dict(got), want))
+    ctx.reach()
+
+
+def run_decode_sequence(ctx, st):
+    """two requests under two different supplied tables in one process: the second table is honoured as well"""
+    ks, names, t = _table(ctx)
+    e = ctx.int('e', 32)
+    ctx.assume((e & 3) == 0)
+    for k in ks:
+        ctx.assume(e != k)
+    recs = [K.pack_rec(1001, [1, 2, 3, 4], 0x1d3, e | 1), K.pack_rec(1002, [0, 0x41, 0, 0], 0x1d3, e | 2)]
+    # first request: a table that names e as the decodable code; second: the table that does not know e
+    if ctx.symbolic:
+        t1 = SymMap(name='codes1')
+        t1._set(e, 'BSC_getpid')
+    else:
+        t1 = {e: 'BSC_getpid'}
+    p = _parser(ctx)
+    try:
+        out1 = list(p.traces(make_stream(K.v2_file([], 0, recs)), t1))
+        out2 = list(_parser(ctx).traces(make_stream(K.v2_file([], 0, recs)), t))
+        p3 = _parser(ctx)
+        for c in ('show_timestamp', 'show_func_qual', 'show_tid', 'show_process', 'show_args'):
+            setattr(p3, c, False)
+        lines = list(p3.formatted_kevents(make_stream(K.v2_file([], 0, recs[:1])), t))
+    except Exception as ex:     # noqa
+        ctx.check('C19/sequence/no-error', False, '%s: %s' % (type(ex).__name__, ex)); ctx.reach(); return
+    ctx.check('C19/sequence/first-table-honoured', len(out1) == 1 and type(out1[0]).__name__ == 'BscGetpid')
+    ctx.check('C19/sequence/second-table-honoured', len(out2) == 0, 'an id absent from the second table was decoded (%d traces)' % len(out2))
+    ctx.reach()
+
 
 
 def _hexval(ch):
